@@ -10,6 +10,7 @@ import (
 	"strings"
 
 	"verif/checks"
+	"verif/symgo"
 )
 
 func main() {
@@ -34,7 +35,17 @@ func main() {
 	if e := os.Getenv("PROBE_INITS"); e != "" {
 		inits = strings.Split(e, ",")
 	}
-	outs := checks.RunFamily(p, []checks.Config{{Name: "probe", Func: os.Args[3], Args: args}}, checks.RunOpts{Pkg: os.Args[1], Inits: inits, PanicObl: os.Getenv("PROBE_NOPANIC") == "", Workers: 1})
+	cfg := checks.Config{Name: "probe", Func: os.Args[3], Args: args}
+	opts := checks.RunOpts{Pkg: os.Args[1], Inits: inits, PanicObl: os.Getenv("PROBE_NOPANIC") == "", Workers: 1}
+	if os.Getenv("PROBE_RACE") != "" {
+		// happens-before race obligations (symgo/race.go)
+		cfg.Setup = func(in *symgo.Interp) { in.RaceDetect = true }
+		opts.Post = func(o *checks.Outcome, in *symgo.Interp) {
+			c, n := in.RaceObligations()
+			fmt.Println("race: cells shared between goroutines", c, "unordered conflicting segment pairs", n)
+		}
+	}
+	outs := checks.RunFamily(p, []checks.Config{cfg}, opts)
 	o := outs[0]
 	fmt.Println("err:", o.Err, "instrs", o.Instrs, "forks", o.Forks, "queries", o.Queries, "solver_s", o.SolverS)
 	for _, ob := range o.Obls {
